@@ -261,3 +261,19 @@ func (p *Prog) atomIsCallAny(f *Func, e ast.Expr, callees ...string) bool {
 	}
 	return false
 }
+
+// DominatingFacts: facts of the conditional edges structurally dominating n.
+func (p *Prog) DominatingFacts(f *Func, n ast.Node) FactSet {
+	g := p.CFG(f)
+	loc, ok := g.Locate(n)
+	if !ok {
+		return nil
+	}
+	s := FactSet{}
+	for _, e := range g.DominatingEdges(loc) {
+		for _, ft := range p.FactsOfCond(e.Cond, e.Val) {
+			s[ft.Key] = ft
+		}
+	}
+	return s
+}
